@@ -219,7 +219,7 @@ PROPS = {
         'not_decided': ['operationIds are unique', 'the YAML text parses back to the same document', 'every Ref(name) in the evaluated spec has an entry in spec.refs', 'collisions between untagged() component names'],
     },
     'C08': {
-        'units': ['c08'],
+        'units': ['c08', 'c01'],
         'level': 'other',
         'obligation_prefixes': ['C08.'],
         'scans': [
